@@ -47,11 +47,16 @@ Atoms ==
   \cup {[kind |-> "member", name |-> m] : m \in SeqMembers \cup SevSeqMembers}
   \cup {[kind |-> "strlen", n |-> n] : n \in {0, 1, 23, 24, 255, 256}}
 
+\* hex texts for the two fields whose type is a UNION of an integer and a byte string (suit-parameter-content, suit-cose-key-id):
+\* the text is hex and means bytes, whatever else it may look like (decimal digits, a 0b.. literal, an exponent, upper case)
+HexTexts == {"", "00", "0000", "10", "1234", "3031", "0102", "0b01", "1e10", "c0ffee", "ABCDEF", "99999999999999999999"}
+UnionAtoms == {[kind |-> "unionhex", field |-> f, text |-> t] : f \in {"content", "kid", "kidunprot", "rcpkid"}, t \in HexTexts}
+
 VARIABLES a
-Init == a \in Atoms
+Init == a \in Atoms \cup UnionAtoms
 Next == UNCHANGED a
 Spec == Init /\ [][Next]_a
 AtomIsKnown == a.kind \in {"policycmd", "index", "indexint", "nest", "paramint", "param", "seqnum", "hashalg", "signalg", "kid",
-                           "comparator", "textkey", "member", "strlen"}
+                           "comparator", "textkey", "member", "strlen", "unionhex"}
 Emit == EMIT => PrintT("SCN " \o ToJson(a))
 =============================================================================
